@@ -32,6 +32,9 @@ type CandidatePair struct {
 	state                    CandidatePairState
 	nominated                bool
 	nominateOnBindingSuccess bool
+	// pendingNominationValue is the renomination value that asked for this pair
+	// while it was not yet valid (see nominateOnBindingSuccess).
+	pendingNominationValue *uint32
 
 	// stats
 	currentRoundTripTime int64 // in ns
